@@ -24,9 +24,9 @@ def install_demo(d, meta, ident):
     crate = meta.get("crate_for_demo")
     how = (meta.get("how_to_install_demo") or "").lower()
     src = open(os.path.join(d, "demo.rs")).read()
-    m = re.search(r"append[^.]*?to (?:the end of )?(`?)([\w\-/\.]+\.rs)", how)
+    m = re.search(r"([\w\-]+/src/[\w\-/]+\.rs)", how)
     if ("append" in how or ">>" in how) and m:
-        target = os.path.join(WT, m.group(2))
+        target = os.path.join(WT, m.group(1))
         open(target, "a").write("\n" + src)
         name = re.search(r"mod (\w+)", src).group(1)
         return ("cargo test --offline -p %s --lib %s" % (crate, name), target, "append")
